@@ -348,8 +348,8 @@ def r09_5(prog, rep, rid="R09.5"):
                     out.add(("nz", a[1]))
                 if len(a) == 5 and a[0] == "!=" and a[1] in zvars and a[2] == "0":
                     out.add(("nz", a[1]))
-                if len(a) == 5 and a[0] in (">", ">=") and a[1] in zvars and a[2].isdigit() and int(a[2]) >= (0 if a[0] == ">" else 1):
-                    out.add(("nz", a[1]))
+                if len(a) == 5 and a[0] in ("<", "<=") and a[2] in zvars and a[1].isdigit() and int(a[1]) >= (0 if a[0] == "<" else 1):
+                    out.add(("nz", a[2]))
             return out
 
         def kills(x):
